@@ -163,7 +163,8 @@ class SchemaBuilder(
             key: self.ref_factory(type_name)
             for key, tp in discriminator.get_mapping(types).items()
             for type_name in [get_type_name(tp).json_schema]
-            if type_name is not None and type_name != key
+            # types out of reach of the schema have no definition to point to
+            if type_name is not None and type_name != key and type_name in self.refs
         }
         if mapping:
             discriminator_schema["mapping"] = mapping
